@@ -134,7 +134,7 @@ fn text_archive(r: &mut Rng, unicode: bool, big: bool) -> Vec<u8> {
     t.serialize().unwrap_or_default()
 }
 
-fn pack_archive(r: &mut Rng) -> Vec<u8> {
+pub fn pack_archive(r: &mut Rng) -> Vec<u8> {
     let mut m: IndexMap<String, Vec<u8>> = IndexMap::new();
     let n = r.range(0, 4);
     for i in 0..n {
@@ -145,7 +145,7 @@ fn pack_archive(r: &mut Rng) -> Vec<u8> {
 }
 
 /// 3DS arc image built by the harness through BinArchive (mila has no arc writer)
-fn arc_image(r: &mut Rng) -> Vec<u8> {
+pub fn arc_image(r: &mut Rng) -> Vec<u8> {
     let n = r.range(0, 3);
     let padded = r.chance(1, 2);
     let files: Vec<Vec<u8>> = (0..n).map(|_| { let k = r.below(20); r.bytes(k) }).collect();
